@@ -3,6 +3,7 @@ C13 line-protocol driver.  One case = one admin handler + one request:
 
   req  <side> <addr> <origins> <eo> <acl> <pats> <idx> <method> <host> <path> <upg> <origin> <referer> <tls>
   load <side> <addr> …same fields…     the same case driven through caddy.Load of a JSON config
+  ip   <hex>                           netip.ParseAddr + IsUnspecified / IsLoopback of a host → n | u | l | o
   url  <hex>                           net/url.Parse on printable ASCII without `%` → `ok <scheme> <host>` | `err`
   cf   <args> <block>                  the Caddyfile `admin` global option: args = . | hex,hex…  block = ~ (none) |
                                        . (empty) | line;line… (line = hex,hex…) → `ok <disabled> <listen> <eo> <origins>` | `err`
@@ -32,6 +33,7 @@ Answer:  <final> <path> <cors> <hits>     final = refused:<why> | handled:<patte
 import CaddyModel.C13.Listen
 import CaddyModel.C13.Caddyfile
 import CaddyModel.C13.Url
+import CaddyModel.C13.Netip
 
 namespace CaddyModel.C13
 
@@ -182,6 +184,17 @@ def loadable (network host : Bytes) (port : Nat) : Bool :=
   (network == sTcp && port == 0 && bindableHosts.contains host) ||
   (network == sUnix && (hasPrefix host (str "c13-load") || host == str "c13-default.sock"))
 
+/-- the (expanded) listen string names a unix network and carries more than 6 bytes after the
+    first `|` of its address part -/
+def permBitsTooLong (input : Bytes) : Bool :=
+  match cutAt slash input with
+  | some (before, after) =>
+    hasPrefix (asciiLower (trimSpace before)) sUnix &&
+    (match cutAt 124 after with
+     | some (_, bits) => bits.length > 6
+     | none => false)
+  | none => false
+
 /-- the permission-bits suffix of a unix socket address is modelled up to 6 octal digits -/
 def unixPermInDomain (network host : Bytes) : Bool :=
   !hasPrefix network sUnix ||
@@ -208,7 +221,15 @@ def handleReq (load : Bool) : List String → String
         else if p.head? != some slash || !p.all safeByte then "bad-op"
         else match idChain idx maxHops p with
           | none => "too-many-redirects"
-          | some _ =>
+          | some chain =>
+            -- the routing tree's handling of a CONNECT path that lost its leading slash in an /id/
+            -- rewrite (slash counting in exactMatch) is outside the modelled mux
+            if m == sCONNECT && chain.any (fun q => q != [] && q.head? != some slash) then "bad-op"
+            -- unix permission bits beyond 6 octal digits (FileMode type bits) are outside the model
+            else if permBitsTooLong (match C18.replaceOrErr listen true true listenEnv with
+                                     | .ok input => if input = [] then (if side == "R" then defaultRemoteListen else defaultLocalListen) else input
+                                     | _ => []) then "bad-op"
+            else
             match parseAdminListenAddrP listenEnv listen (if side == "R" then defaultRemoteListen else defaultLocalListen) with
               | .err => "listen-error"
               | .ok network ahost port =>
@@ -216,7 +237,9 @@ def handleReq (load : Bool) : List String → String
                 else if load && !loadable network ahost port then "bad-op"
                 else if load && side == "R" && acl.isNone then "bad-op"
                 else
-                  let hd := newAdminHandler ⟨os, eo, acl⟩ ⟨network, ahost, port, ip⟩ (side == "R") (pats ++ linkedModulePats)
+                  -- the netip class of the host is computed by the model (Netip.lean); the table value `ip` is
+                  -- only checked by the harness against net/netip
+                  let hd := newAdminHandler ⟨os, eo, acl⟩ ⟨network, ahost, port, (fun (_ : IpClass) => ipClassOf ahost) ip⟩ (side == "R") (pats ++ linkedModulePats)
                   let r : Req := ⟨m, h, p, up, o, rf, ou, ru, tls⟩
                   let res := serveReal probeHits hd idx (maxHops + 1) r 0
                   s!"{showFinal res.final} {Hex.encode res.path} {res.cors} {res.state}"
@@ -263,7 +286,18 @@ def handleUrl : List String → String
     | none => "bad-op"
   | _ => "bad-op"
 
+def showIp : IpClass → String
+  | .notIP => "n" | .unspecified => "u" | .loopback => "l" | .other => "o"
+
+/-- `ip <hex>`: the model of netip.ParseAddr + IsUnspecified / IsLoopback → n | u | l | o -/
+def handleIp : List String → String
+  | [raw] => match Hex.decode raw with
+    | some raw => showIp (ipClassOf raw)
+    | none => "bad-op"
+  | _ => "bad-op"
+
 def handle : List String → String
+  | "ip" :: rest => handleIp rest
   | "url" :: rest => handleUrl rest
   | "req" :: rest => handleReq false rest
   | "load" :: rest => handleReq true rest
